@@ -229,6 +229,22 @@ pub fn build(spec: &BlindSpec) -> Flow {
             }
         }
     }
+    // now and then: a zero-value explicit output on a provably unspendable script (a data carrier, or a script longer than
+    // the maximal script size) — it takes no part in the balance
+    if p.chance(1, 8) {
+        let spk = if p.coin() { Script::new_op_return(&p.bytes(9)) } else { let nb = 10_001 + p.usize_below(20); let mut b = p.bytes(nb); if b[0] == 0x6a { b[0] = 0x51; } Script::from(b) };
+        let a = assets[0];
+        outs.push((Output::new_explicit(spk, 0, a, None), None, (a, 0)));
+    }
+    // now and then: foreign proprietary pairs in the global map, some shaped like the pairs the map interprets (a 32-byte key
+    // with an empty value under subtype 0 looks like a scalar but for its prefix): they must travel along untouched
+    if p.chance(1, 4) {
+        for _ in 0..p.urange(1, 3) {
+            let k = crate::psetgen::foreign_prop_key(&mut p, 0x02);
+            let n = if k.prefix != b"pset" { *p.pick(&[0usize, 0, 1, 32]) } else { p.usize_below(8) };
+            ps.global.proprietary.insert(k, p.bytes(n));
+        }
+    }
     p.shuffle(&mut outs);
     let mut receivers = Vec::new();
     let mut originals = Vec::new();
